@@ -9,11 +9,17 @@ mkdir -p run evidence replays
 rm -rf run/sany && mkdir -p run/sany && cp spec/*.tla run/sany/
 fail=0
 for f in run/sany/*.tla; do
+  # HeapDictInd.tla is an Apalache module (EXTENDS Apalache, type annotations): parsed and type-checked by apalache-mc below
+  [ "$(basename "$f")" = "HeapDictInd.tla" ] && continue
   out=$(cd run/sany && java -cp /opt/veriftools/tla/tla2tools.jar:/opt/veriftools/tla/CommunityModules-deps.jar tla2sany.SANY "$(basename "$f")" 2>&1)
   if echo "$out" | grep -q -E "Parse Error|Semantic errors|Fatal errors|\*\*\* Errors|Could not"; then
     echo "SANY FAILED: $f"; echo "$out" | tail -20; fail=1
   fi
 done
+if command -v apalache-mc >/dev/null; then
+  out=$(cd run/sany && apalache-mc typecheck --out-dir=/verif/run/sany/apa HeapDictInd.tla 2>&1)
+  echo "$out" | grep -q "EXITCODE: OK" || { echo "apalache typecheck FAILED: HeapDictInd.tla"; echo "$out" | tail -10; fail=1; }
+fi
 rm -rf run/sany
 /venv/bin/python -c "import sys; sys.path.insert(0,'/repo'); import matched_markets.methodology.tbrmatchedmarkets, hypothesis, jsonschema" 2>&1 | grep -v conda
 [ $fail -eq 0 ] && echo "setup ok" || exit 2
